@@ -82,7 +82,14 @@ def canon(s):
     return s._canon
 
 
+LOOP_BODY: Dict[int, "S"] = {}  # loopvar placeholder id -> value at the end of the loop body
+
+
 def children(s: S):
+    if s.op == "loopvar":
+        b = LOOP_BODY.get(s.id)
+        if b is not None:
+            yield b
     for a in s.args:
         if isinstance(a, S):
             yield a
@@ -227,6 +234,21 @@ CMPOPS = {
 }
 
 SELF = mk("self")
+_RESET_HOOKS: List[Callable[[], None]] = []
+
+
+def reset_state():
+    """Forget every interned node and derived cache (one analysis run = one fresh universe;
+    loop placeholders are keyed by source position, so caches must not survive a change of
+    the analysed sources)."""
+    _INTERN.clear()
+    LOOP_BODY.clear()
+    _VATOMS.clear()
+    SELF._canon = None
+    SELF._atoms = None
+    _INTERN[("self", None, ())] = SELF
+    for h in _RESET_HOOKS:
+        h()
 
 # ----------------------------------------------------------------------------- TensorDict model
 
@@ -835,6 +857,10 @@ class Interp:
         self.conds.pop()
         # close
         for (kind, ref, key), (ph, init) in inits.items():
+            if ph is not None:
+                endv = self.frame.locals.get(key) if kind == "local" else (ref.cells.get(key) if kind == "cell" else self.selfattrs.get(key))
+                if isinstance(endv, S) and endv is not ph:
+                    LOOP_BODY[ph.id] = endv
             if kind == "local":
                 cur = self.frame.locals.get(key)
                 if isinstance(cur, S) and cur is not ph:
